@@ -3,12 +3,65 @@ import Octo.Drv.SqlCodec
 namespace Octo.Drv.C05
 open Octo Octo.Drv.SqlCodec
 
+/-! `lim2 <mode> <nested 0|1> <order 0|1|2> <n> T 2 <nrows> <k v>…`: LIMIT / ORDER BY over a source that RETRACTS
+    (`SELECT c0, COUNT(c1) AS c FROM t GROUP BY c0 TRIGGER COUNTING 1`, as a subquery or at top level). The plan then
+    must use OrderSensitiveTransform (never the Limit node): the result is the first n rows of the final, consolidated
+    group table in (ORDER BY c, then values) order. -/
+structure Lim2 where
+  nested : Bool
+  order : Nat          -- 0 none, 1 ORDER BY c ASC, 2 ORDER BY c DESC
+  n : Nat
+  table : List Octo.Sql.Row
+
+def parseLim2 : List String → Option Lim2
+  | "lim2" :: _mode :: nested :: order :: n :: rest => do
+    let (t, _) ← parseTable rest
+    pure { nested := nested == "1", order := order.toNat!, n := n.toNat!, table := t }
+  | _ => none
+
+open Octo.Sql in
+/-- the consolidated group table: one row (key, number of rows of the group) per class of keys, first occurrence order -/
+def groupCounts (t : List Row) : List Row :=
+  (distinctOp (t.map fun r => r.take 1)).map fun k =>
+    k ++ [Value.int ((t.filter fun r => rowEq (r.take 1) k).length)]
+
+open Octo.Sql in
+def lim2Expected (op : Lim2) : List Row :=
+  let order : List (SExpr × Bool) := match op.order with | 1 => [(.col 1, false)] | 2 => [(.col 1, true)] | _ => []
+  (sortCanon order (groupCounts op.table)).take op.n
+
 def model (toks : List String) : String :=
+  match toks with
+  | "lim2" :: _ => (match parseLim2 toks with | some op => renderRows (lim2Expected op) | none => "bad-op")
+  | _ =>
   match parseSel toks with
   | some op => modelSel op
   | none => "bad-op"
 
+open Octo.Sql in
+/-- oracle for `lim2`: exactly min(n, #groups) rows, each a row of the final group table, none twice, and with ORDER BY
+    the first n of the order -/
+def judgeLim2 (op : Lim2) (out : List String) : String :=
+  let groups := groupCounts op.table
+  let order : List (SExpr × Bool) := match op.order with | 1 => [(.col 1, false)] | 2 => [(.col 1, true)] | _ => []
+  let b : Block := { whr := none, proj := none, distinct := false, order := order, limit := some op.n }
+  match splitRows out with
+  | none => s!"bad no-rows-output {String.intercalate " " out}"
+  | some rendered =>
+    match matchRows groups groups rendered with
+    | none => "bad row-not-in-final-group-table-or-repeated"
+    | some typed =>
+      if checkOrderLimit b groups typed then "ok"
+      else if typed.length != min op.n groups.length then s!"bad wrong-row-count got={typed.length} want={min op.n groups.length}"
+      else "bad not-the-first-n-of-the-order"
+
 def judge (toks : List String) (out : List String) : String :=
+  match toks with
+  | "lim2" :: _ =>
+    (match parseLim2 toks with
+     | some op => if out == ["panic"] then "bad go-panic" else judgeLim2 op out
+     | none => "bad unparsable-op")
+  | _ =>
   match parseSel toks with
   | some op =>
     if out == ["panic"] then "bad go-panic"
